@@ -50,6 +50,12 @@ Proof.
   - rewrite IH. unfold apply at 2. simpl. fold (apply (apply1 H ev) r). tauto.
 Qed.
 
+Lemma apply_reset H tr : apply H (EvReset :: tr) = apply H tr.
+Proof. reflexivity. Qed.
+
+Lemma guarded_reset spec H tr : guarded spec H (EvReset :: tr) <-> guarded spec H tr.
+Proof. simpl. tauto. Qed.
+
 (* ---------- (A) the machine ---------- *)
 Section Machine.
 Variable spec : N -> guard.
@@ -73,19 +79,21 @@ Proof.
     try congruence.
   - (* i is the stepping thread *)
     rewrite gupd_same in Hi. rewrite gupd_other in Hj by assumption. simpl in Hi.
-    destruct ev as [y k n|y k n|y f n]; simpl in Hi.
+    destruct ev as [y k n|y k n|y f n|]; simpl in Hi.
     + destruct Hi as [E|Hi]; [|exact (HE i0 j Hij _ _ _ Hi Hj)].
       inversion E; subst. simpl in Hf. exact (Hf j m Hj).
     + apply In_remove_one in Hi. exact (HE i0 j Hij _ _ _ Hi Hj).
     + exact (HE i0 j Hij _ _ _ Hi Hj).
+    + exact (HE i0 j Hij _ _ _ Hi Hj).
   - (* j is the stepping thread *)
     rewrite gupd_other in Hi by assumption. rewrite gupd_same in Hj. simpl in Hj.
-    destruct ev as [y k n|y k n|y f n]; simpl in Hj.
+    destruct ev as [y k n|y k n|y f n|]; simpl in Hj.
     + destruct Hj as [E|Hj]; [|exact (HE i i0 Hij _ _ _ Hi Hj)].
       inversion E; subst. simpl in Hf. destruct m.
       * exact (Hf i Hi).
       * exact (Hf i MW Hi).
     + apply In_remove_one in Hj. exact (HE i i0 Hij _ _ _ Hi Hj).
+    + exact (HE i i0 Hij _ _ _ Hi Hj).
     + exact (HE i i0 Hij _ _ _ Hi Hj).
   - rewrite gupd_other in Hi by assumption. rewrite gupd_other in Hj by assumption.
     exact (HE i j Hij _ _ _ Hi Hj).
@@ -124,6 +132,30 @@ Proof.
       + intros i. rewrite (proj1 (H0 i)). apply H0.
     - destruct IH as [HE HG]. split; [eapply step_Excl|eapply step_Guarded]; eauto. }
   apply no_race; assumption.
+Qed.
+
+(* isolation: while a thread holds a lock in write mode, no other thread is
+   about to perform an access that this lock guards - a critical section under
+   the write lock is one indivisible step as far as the guarded fields go *)
+Theorem write_lock_isolates (g0 : gstate) :
+  (forall i, th_H (g0 i) = [] /\ guarded spec [] (th_rest (g0 i))) ->
+  forall g, reachable g0 g ->
+  forall i j x l f k r, i <> j -> In (x, l, MW) (th_H (g i)) ->
+    th_rest (g j) = EvAcc x f k :: r -> spec f = GLock l -> False.
+Proof.
+  intros H0 g R.
+  assert (Excl g /\ Guarded g) as [HE HG].
+  { induction R as [|g g' R IH St].
+    - split.
+      + intros i j _ x l m Hi. rewrite (proj1 (H0 i)) in Hi. destruct Hi.
+      + intros i. rewrite (proj1 (H0 i)). apply H0.
+    - destruct IH as [HE HG]. split; [eapply step_Excl|eapply step_Guarded]; eauto. }
+  intros i j x l f k r Hij Hi Hj Hs.
+  pose proof (HG j) as Gj. rewrite Hj in Gj. simpl in Gj. destruct Gj as [Oj _].
+  rewrite Hs in Oj. destruct k; simpl in Oj.
+  - destruct Oj as [Oj|Oj]; exact (HE i j Hij _ _ _ Hi Oj).
+  - exact (HE i j Hij _ _ _ Hi Oj).
+  - exact Oj.
 Qed.
 
 End Machine.
@@ -217,7 +249,7 @@ Proof.
     eexists. split; [reflexivity|]. intros o' l' m' Hi. apply filter_In in Hi.
     destruct Hi as [Hi Hn]. simpl in Hn. apply negb_true_iff in Hn. apply N.eqb_neq in Hn.
     apply In_remove_one_neq; [congruence|]. apply R. exact Hi.
-  - (* bind *) intros x v r inv L H _ R. split; [simpl; auto|]. simpl.
+  - (* bind *) intros x v r inv L H _ R. split; [simpl; auto|]. rewrite apply_reset. simpl.
     eexists. split; [reflexivity|]. intros o' l' m' Hi. apply filter_In in Hi.
     destruct Hi as [Hi Hn]. simpl in Hn. apply negb_true_iff in Hn.
     unfold upd. rewrite Hn. apply R. exact Hi.
@@ -238,7 +270,7 @@ Proof.
     + destruct P as (L' & E & RL). rewrite E. apply meetopt_r. exact RL.
     + destruct P as (L' & E & RL). rewrite E. apply meetopt_r. exact RL.
   - (* loop done *) intros body site r inv L H V R. rewrite lcheck_loop_eq in *. cbv zeta in *.
-    split; [simpl; auto|]. simpl. apply meetopt_l. exact R.
+    split; [simpl; auto|]. rewrite apply_reset. simpl. apply meetopt_l. exact R.
   - (* loop iter *) intros body site r tr1 r1 f1 tr2 r2 fl _ IHb Hf1 _ IHl inv L H V R.
     pose proof V as V0. rewrite lcheck_loop_eq in V. cbv zeta in V. simpl in V.
     apply app_eq_nil in V. destruct V as [Vx Vb].
@@ -249,17 +281,19 @@ Proof.
         destruct (subseth L L') eqn:S; [|discriminate]. eapply subseth_rel; eauto.
       - destruct P1 as (Lh & s' & E & RL). inversion E; subst. exact RL. }
     destruct (IHl inv L (apply H tr1) V0 R1) as [G2 P2].
-    split; [apply guarded_app; auto|]. rewrite apply_app. exact P2.
+    split; [apply guarded_reset; apply guarded_app; auto|]. rewrite apply_reset, apply_app. exact P2.
   - (* loop break *) intros body site r tr1 r1 _ IHb inv L H V R.
     rewrite lcheck_loop_eq in *. cbv zeta in *. simpl in V.
     apply app_eq_nil in V. destruct V as [Vx Vb].
-    destruct (IHb (Some (L, site)) L H Vx R) as [G1 P1]. split; [exact G1|].
+    destruct (IHb (Some (L, site)) L H Vx R) as [G1 P1].
+    split; [apply guarded_reset; apply guarded_app; split; [exact G1|simpl; auto]|].
+    rewrite apply_reset, apply_app. change (apply (apply H tr1) [EvReset]) with (apply H tr1).
     simpl in *. destruct P1 as (L' & E & RL). rewrite E. simpl. eexists. split; [reflexivity|].
     apply inter_rel_r. exact RL.
   - (* loop ret *) intros body site r tr1 r1 _ IHb inv L H V R.
     rewrite lcheck_loop_eq in *. cbv zeta in *. simpl in V.
     apply app_eq_nil in V. destruct V as [Vx Vb].
-    destruct (IHb (Some (L, site)) L H Vx R) as [G1 P1]. split; [exact G1|exact I].
+    destruct (IHb (Some (L, site)) L H Vx R) as [G1 P1]. split; [apply guarded_reset; exact G1|exact I].
   - (* continue *) intros r inv L H V R. split; [simpl; auto|]. simpl in *.
     destruct inv as [[Lh site]|]; [|discriminate]. simpl in V.
     destruct (subseth Lh L) eqn:S; [|discriminate].
